@@ -109,6 +109,19 @@ let handle (toks : string list) : string =
                | Done (f3, cnt3) -> Buffer.add_string b "| "; dump f3 cnt3)
             end;
             Buffer.contents b))
+  | "bk" :: n :: shift :: ul :: _rm :: rest ->
+      let r = { rest } in
+      let n = int_of_string n in let shift = ofl (fof shift) in
+      let a = rmat r n n in let bvec = rvec r n in
+      let alpha = ofl !consts.(6) in
+      let nn = nat_of_int_e n in
+      let s = bk_compute opsFloat alpha nn a (ul = "L") shift in
+      let b = Buffer.create 2048 in
+      Buffer.add_string b (string_of_int (int_of_nat_e s.info)); Buffer.add_char b ' ';
+      List.iter (fun z -> Buffer.add_string b (string_of_int (int_of_z z)); Buffer.add_char b ' ') s.perm;
+      pm b s.p_;
+      if int_of_nat_e s.info = 0 then pv b (bk_solve opsFloat nn s bvec);
+      Buffer.contents b
   | "dsqr" :: rest ->
       let r = { rest } in
       let n = rint r in let ss = rfl r in let tt = rfl r in let h = rmat r n n in let y = rvec r n in
